@@ -3,7 +3,7 @@
 # Confirms a sub-agent's seeded change in its scratch worktree /tmp/wt-<PROP>:
 #   with the patch: builds, the 96 tests pass, the demo fails; without it: the demo passes.
 P="$1"; X="$2"
-D="/tmp/seeded-out/$P/variant_$X"; W="/tmp/cwt"   # a confirmation worktree of its own: never the agent's
+D="${SEEDED_OUT:-/tmp/seeded-out}/$P/variant_$X"; W="/tmp/cwt"   # a confirmation worktree of its own: never the agent's
 [ -f "$D/patch.diff" ] || { echo "NO-PATCH $P $X"; exit 2; }
 cd "$W" || exit 2
 git checkout -q -- src 2>/dev/null; rm -f examples/seeded_demo_*.rs
